@@ -25,10 +25,13 @@ def hang_text(F: Facts):
 def c01(F: Facts):
     v = []
     # expected deliveries
+    touched = c10_facts(F)['touched'] if F.sc.get('timeouts') else set()
     for (bus, ev), idxs in F.enq.items():
         exp = F.expected(bus, ev)
         for hi in sorted(exp):
             n = len(F.enters.get((bus, ev, hi), []))
+            if n == 0 and ev in touched:
+                continue  # its processing was cut short because the handler awaiting it was cancelled by a timeout (C10's subject)
             if n == 0:
                 v.append(('C01.a', f'event {ev} accepted on {bus} (enq at {idxs}) never delivered to handler h{hi}' + (f' [run stalled: {hang_text(F)}]' if F.hang else '')))
             elif n > 1:
@@ -99,14 +102,45 @@ def c03(F: Facts):
                 v.append(('C03.c', f'await on event {r["ev"]} returned at idx {r["i"]} while the event was not complete (result statuses {r["statuses"]}, complete={r["complete"]})'))
             if r['inc']:
                 v.append(('C03.d', f'await on event {r["ev"]} returned at idx {r["i"]} while descendants {r["inc"]} were not complete'))
+    stops = bool(F.sc.get('stops'))
     if F.hang:
         for ai, s in (F.hang.get('actors') or {}).items():
             b = s.get('blocked')
             if b and b[0] == 'await':
-                v.append(('C03.e', f'actor {ai} still blocked awaiting event {b[1]} at the horizon: {hang_text(F)}; final={_brief(F, b[1])}'))
-        if F.hang.get('kind') in ('spinning', 'deadlock', 'budget') and not any(x[0] == 'C03.e' for x in v):
+                if stops and not _tree_done(F, b[1]):
+                    continue  # stop() left part of the tree unprocessed: the statement promises nothing
+                v.append(('C03.e', f'actor {ai} still blocked awaiting event {b[1]} at the horizon{" although every handler result in its tree is terminal" if stops else ""}: {hang_text(F)}; final={_brief(F, b[1])}'))
+        if F.hang.get('kind') in ('spinning', 'deadlock', 'budget') and not stops and not any(x[0] == 'C03.e' for x in v):
             v.append(('C03.e', f'event loop made no progress: {hang_text(F)}'))
     return v
+
+
+def _tree_done(F, ev, _seen=None):
+    """every expected handler of every acceptance of ev has a terminal result, and so has every accepted descendant"""
+    seen = _seen if _seen is not None else set()
+    if ev in seen:
+        return True
+    seen.add(ev)
+    s = F.final.get(ev)
+    if not s:
+        return False
+    accs = [(b, e) for (b, e) in F.enq if e == ev]
+    if not accs:
+        return False
+    for bus, _e in accs:
+        exp = F.expected(bus, ev)
+        # (a stop() call is in effect somewhere between its begin and end records)
+        begins = [r['i'] for r in F.tr if r['k'] == 'a-stop-begin' and r['bus'] == bus]
+        ends = [r['i'] for r in F.tr if r['k'] == 'a-stop-end' and r['bus'] == bus]
+        if not exp and begins and (len(ends) < len(begins) or max(ends) > F.enq[(bus, ev)][-1]):
+            return False  # nothing observable tells whether the stopped bus ever took the event off its queue
+        for hi in exp:
+            rows = [r for r in s['results'] if r['h'] == f'h{hi}' and r['bus'] == bus]
+            if not rows or any(r['st'] not in TERMINAL for r in rows):
+                return False
+    if any(r['st'] not in TERMINAL for r in s['results']):
+        return False
+    return all(_tree_done(F, c, seen) for c in F.children.get(ev, []) if c in F.accepted)
 
 
 def _brief(F, tag):
@@ -134,7 +168,8 @@ def c04(F: Facts, cancelled_ok=True):
 
 
 def c05(F: Facts):
-    """serial buses only (caller guarantees)."""
+    """Handlers of an event that is in flight on a parallel_handlers bus when the await starts (and whatever they dispatch) are concurrent
+    by design (and by the open finding F14): activity for such an event or its descendants is not judged."""
     v = []
     oc = F.out.get('observed_complete', {})
     for me, ivs in F.awaits.items():
@@ -147,8 +182,12 @@ def c05(F: Facts):
             if done_at is not None:
                 end = min(end, done_at['at'])
             suspended = set(F.open_awaits_at(b + 1))  # handlers already suspended in an await: only their cancellation can show up
+            # events whose handlers are in flight on a parallel bus when the await starts: their sibling handlers run concurrently
+            par_events = {x[1] for x in F.running_at(b + 1) if F.par.get(x[0])}
             for r in F.tr[b + 1 : end]:
                 active = r['k'] == 'enter' or (r['k'] in ('mark', 'cleanup-begin', 'cleanup-end') and 'h' in r)
+                if active and any(F.is_desc(r['ev'], pe) for pe in par_events):
+                    continue
                 if active and not F.is_desc(r['ev'], tag) and (r['bus'], r['ev'], r['h']) not in suspended and (r['bus'], r['ev'], r['h']) != tuple(me):
                     other = r['ev']
                     cq = min((idxs[0] for (bb, ev), idxs in F.enq.items() if ev == tag), default=None)
